@@ -167,4 +167,4 @@ Definition app_monitors (boundary : bool) (h : Z) (s : State) : list (string * b
     ("ids.below_count", mon_ids s);
     ("ids.one_in_flight", mon_one_in_flight s);
     ("super.role_ok", mon_super_ok s);
-    ("proc.no_residue", negb boundary || mon_no_residue s) ].
+    ("proc.no_residue", mon_no_residue s) ].
